@@ -1,0 +1,98 @@
+//go:build verif
+
+package dependency
+
+// Machine-checked contracts for /verif (gowp). Comment-only file: it adds no code.
+
+// Abstract view of a provider: explicit / default instances and factories (maps by name),
+// the resolution call stack, the key list and the `blocked` flag.
+//@ define InstKept(d ref) bool = ref(d.instances) == old(ref(d.instances)) && foralls(k, old(has(d.instances, k)) ==> has(d.instances, k) && d.instances[k] == old(d.instances[k]))
+//@ define InstSame(d ref) bool = ref(d.instances) == old(ref(d.instances)) && mapAt(d.instances, ref(d.instances), 0) == old(mapAt(d.instances, ref(d.instances), 0)) && foralls(k, has(d.instances, k) ==> d.instances[k] == old(d.instances[k]))
+//@ define FactSame(d ref) bool = ref(d.factories) == old(ref(d.factories)) && mapAt(d.factories, ref(d.factories), 0) == old(mapAt(d.factories, ref(d.factories), 0)) && foralls(k, has(d.factories, k) ==> ref(d.factories[k]) == old(ref(d.factories[k])))
+//@ define DFactSame(d ref) bool = ref(d.defaultFactories) == old(ref(d.defaultFactories)) && mapAt(d.defaultFactories, ref(d.defaultFactories), 0) == old(mapAt(d.defaultFactories, ref(d.defaultFactories), 0)) && foralls(k, has(d.defaultFactories, k) ==> ref(d.defaultFactories[k]) == old(ref(d.defaultFactories[k])))
+//@ define DInstSame(d ref) bool = ref(d.defaultInstances) == old(ref(d.defaultInstances)) && mapAt(d.defaultInstances, ref(d.defaultInstances), 0) == old(mapAt(d.defaultInstances, ref(d.defaultInstances), 0)) && foralls(k, has(d.defaultInstances, k) ==> d.defaultInstances[k] == old(d.defaultInstances[k]))
+//@ define StackSame(d ref) bool = len(d.callstack) == old(len(d.callstack)) && forall(k, 0 <= k && k < len(d.callstack) ==> d.callstack[k] == old(d.callstack[k]))
+//@ define WF(d ref) bool = d.instances != nil && d.factories != nil && d.defaultFactories != nil && ref(d.instances) != ref(d.defaultInstances) && ref(d.factories) != ref(d.defaultFactories)
+//@ define InStack(d ref, name string) bool = exists(k, 0 <= k && k < len(d.callstack) && d.callstack[k] == name)
+
+// Re-entrancy: a factory receives the provider and may resolve other dependencies through
+// its exported methods only; every exported method below establishes this relation.
+//@ functype github.com/goatcms/goatcore/app.Factory(dp) (instance, err)
+//@   modifies *
+//@   ensures typeis(dp, "*Provider") ==> as(dp, "*Provider").blocked && StackSame(as(dp, "*Provider")) && InstKept(as(dp, "*Provider"))
+//@   ensures typeis(dp, "*Provider") ==> ref(as(dp, "*Provider").factories) == old(ref(as(dp, "*Provider").factories)) && ref(as(dp, "*Provider").defaultFactories) == old(ref(as(dp, "*Provider").defaultFactories)) && as(dp, "*Provider").autoclean == old(as(dp, "*Provider").autoclean)
+
+//@ func (*Provider).isCalled [C10]
+//@   modifies $none
+//@   ensures result <==> InStack(d, name)
+//@   loop 1 invariant -1 <= $i && $i < len(d.callstack) && forall(k, 0 <= k && k <= $i ==> d.callstack[k] != name)
+//@   loop 1 decreases len(d.callstack) - $i
+//@ func (*Provider).hasKey [C10]
+//@   modifies $none
+//@   ensures result <==> exists(k, 0 <= k && k < len(d.keys) && d.keys[k] == name)
+//@   loop 1 invariant -1 <= $i && $i < len(d.keys) && forall(k, 0 <= k && k <= $i ==> d.keys[k] != name)
+//@   loop 1 decreases len(d.keys) - $i
+
+// ---- definitions: refused after the first resolution, no factory is ever called (lazy) ----
+//@ func (*Provider).Set [C10]
+//@   requires WF(d)
+//@   at_call dynamic.* requires false
+//@   ensures old(d.blocked) ==> result != nil
+//@   ensures result != nil ==> InstSame(d) && FactSame(d) && DFactSame(d) && DInstSame(d)
+//@   ensures result == nil ==> !old(has(d.instances, name)) && !old(has(d.factories, name)) && has(d.instances, name) && d.instances[name] == instance
+//@   ensures result == nil ==> InstKept(d) && FactSame(d) && DFactSame(d) && DInstSame(d)
+//@ func (*Provider).SetDefault [C10]
+//@   requires WF(d) && d.defaultInstances != nil
+//@   at_call dynamic.* requires false
+//@   ensures old(d.blocked) ==> result != nil
+//@   ensures result != nil ==> InstSame(d) && FactSame(d) && DFactSame(d) && DInstSame(d)
+//@   ensures result == nil ==> InstSame(d) && FactSame(d) && DFactSame(d) && has(d.defaultInstances, name) && d.defaultInstances[name] == instance
+//@ func (*Provider).AddFactory [C10]
+//@   requires WF(d)
+//@   at_call dynamic.* requires false
+//@   ensures old(d.blocked) ==> result != nil
+//@   ensures result != nil ==> InstSame(d) && FactSame(d) && DFactSame(d) && DInstSame(d)
+//@   ensures result == nil ==> InstSame(d) && DInstSame(d) && has(d.factories, name) && ref(d.factories[name]) == ref(factory)
+//@ func (*Provider).AddDefaultFactory [C10]
+//@   requires WF(d)
+//@   at_call dynamic.* requires false
+//@   ensures old(d.blocked) ==> result != nil
+//@   ensures result != nil ==> InstSame(d) && FactSame(d) && DFactSame(d) && DInstSame(d)
+//@   ensures result == nil ==> InstSame(d) && FactSame(d) && DInstSame(d)
+//@ func (*Provider).AddInjectors [C10]
+//@   at_call dynamic.* requires false
+//@   ensures old(d.blocked) ==> result != nil
+//@   ensures InstSame(d) && FactSame(d) && DFactSame(d) && DInstSame(d)
+
+// ---- first use: defaults are folded in only for names with no explicit definition ----
+//@ func (*Provider).Block [C10]
+//@   requires WF(d)
+//@   modifies M:string:interface{}, M:string:app.Factory, dependency.Provider.defaultInstances, dependency.Provider.blocked, $maplen
+//@   at_call dynamic.* requires false
+//@   ensures d.blocked && WF(d)
+//@   ensures old(d.blocked) ==> InstSame(d) && FactSame(d) && DFactSame(d)
+//@   ensures InstKept(d) && ref(d.factories) == old(ref(d.factories))
+//@   ensures foralls(k, old(has(d.factories, k)) ==> has(d.factories, k) && ref(d.factories[k]) == old(ref(d.factories[k])) && (!old(has(d.instances, k)) ==> !has(d.instances, k)))
+//@   loop 1 invariant !old(d.blocked) && d.instances != nil && d.factories != nil && d.defaultFactories != nil && ref(d.instances) == old(ref(d.instances)) && ref(d.factories) == old(ref(d.factories)) && ref(d.defaultFactories) == old(ref(d.defaultFactories)) && ref(d.defaultInstances) == old(ref(d.defaultInstances)) && d.autoclean == old(d.autoclean)
+//@   loop 1 invariant foralls(k, old(has(d.instances, k)) ==> has(d.instances, k) && d.instances[k] == old(d.instances[k]))
+//@   loop 1 invariant foralls(k, old(has(d.factories, k)) ==> has(d.factories, k) && ref(d.factories[k]) == old(ref(d.factories[k])) && (!old(has(d.instances, k)) ==> !has(d.instances, k)))
+//@   loop 1 invariant mapAt(d.defaultInstances, ref(d.defaultInstances), 0) == old(mapAt(d.defaultInstances, ref(d.defaultInstances), 0))
+
+// ---- resolution ----
+// The call stack is restored on every exit; a name on the stack is a cycle: error, no
+// factory call; a built instance is returned as is, no factory call; otherwise exactly one
+// factory call, its result is memoised; no other name's instance changes.
+//@ func (*Provider).Get [C10]
+//@   requires WF(d)
+//@   trace dynamic.* as FACTORY
+//@   trace (*Provider).Block as BLOCK
+//@   ensures StackSame(d)
+//@   ensures d.blocked && InstKept(d)
+//@   ensures old(InStack(d, name)) ==> result1 != nil
+//@   ensures !old(InStack(d, name)) && old(d.blocked) && old(has(d.instances, name)) ==> result1 == nil && result0 == old(d.instances[name])
+//@   ensures result1 == nil ==> has(d.instances, name) && d.instances[name] == result0
+//@   ensures result1 != nil ==> result0 == nil
+//@   trace_ensures old(InStack(d, name)) : ^BLOCK $
+//@   trace_ensures !old(InStack(d, name)) && old(d.blocked) && old(has(d.instances, name)) : ^BLOCK $
+//@   trace_ensures true : ^BLOCK (FACTORY )?$
+//@   at_call dynamic.* requires typeis($0, "*Provider") && as($0, "*Provider") == d
